@@ -22,11 +22,18 @@ theorem C16_recent_iff (c : Cfg) (now : Int) (e : Ev) :
 theorem C16_kind_iff (c : Cfg) (e : Ev) : isCertainKind c e = .ok ↔ e.kind ∈ c.validKinds := by
   unfold isCertainKind; split <;> simp_all
 
-theorem C16_whitelist_iff (c : Cfg) (e : Ev) : isAuthorWhitelisted c e = .ok ↔ e.pubkey ∈ c.whitelist := by
-  unfold isAuthorWhitelisted; split <;> simp_all
+/-- fail-closed: an unset or empty whitelist admits nobody -/
+theorem C16_whitelist_iff (c : Cfg) (e : Ev) : isAuthorWhitelisted c e = .ok ↔ ∃ l, c.whitelist = some l ∧ e.pubkey ∈ l := by
+  unfold isAuthorWhitelisted
+  cases h : c.whitelist with
+  | none => simp
+  | some l => by_cases hm : e.pubkey ∈ l <;> simp [hm]
 
-theorem C16_blacklist_iff (c : Cfg) (e : Ev) : isAuthorBlacklisted c e = .ok ↔ e.pubkey ∉ c.blacklist := by
-  unfold isAuthorBlacklisted; split <;> simp_all
+theorem C16_blacklist_iff (c : Cfg) (e : Ev) : isAuthorBlacklisted c e = .ok ↔ ∃ l, c.blacklist = some l ∧ e.pubkey ∉ l := by
+  unfold isAuthorBlacklisted
+  cases h : c.blacklist with
+  | none => simp
+  | some l => by_cases hm : e.pubkey ∈ l <;> simp [hm]
 
 theorem C16_pow_iff (c : Cfg) (e : Ev) : isPow c e = .ok ↔ c.requirePow ≤ 256 - e.idBitLength := by
   unfold isPow; split <;> simp <;> omega
